@@ -64,6 +64,7 @@ def replay(verdict, exe, res, seed=0, tag="lex", sigprefix="lex", vary=True):
             scripts.append((bid, "\n".join(lines)))
             meta[bid] = (b, sub, text)
     results = run_behaviours(exe, scripts, tag)
+    script_of = dict(scripts)
     distinct = set()
     for bid, (b, sub, text) in meta.items():
         g = results.get(bid)
@@ -71,7 +72,7 @@ def replay(verdict, exe, res, seed=0, tag="lex", sigprefix="lex", vary=True):
         verdict.cov["traces_validated_against_impl"] += 1
         if b["ntoks"] > 1:
             distinct.add(desc)
-        rep = {"text_bytes": [ord(c) for c in text], "expected": b}
+        rep = {"text_bytes": [ord(c) for c in text], "expected": b, "script": script_of.get(bid)}
         if g is None:
             raise ModelError("no output for %s" % bid)
         if g["crash"]:
